@@ -58,7 +58,7 @@ func genIntParam(r *core.Rand) ProgParam {
 		min := -(int64(1) << uint(k.bits-1))
 		max := int64(1)<<uint(k.bits-1) - 1
 		var v int64
-		switch r.Intn(6) {
+		switch r.Intn(7) {
 		case 0:
 			v = min
 		case 1:
@@ -67,6 +67,12 @@ func genIntParam(r *core.Rand) ProgParam {
 			v = -1
 		case 3:
 			v = 0
+		case 4:
+			// a value that looks like a pointer (512Ki < v < 2^63) and recurs across frames
+			v = []int64{1234567890, 3000000, 600000}[r.Intn(3)]
+			if v > max {
+				v = max
+			}
 		default:
 			v = int64(r.U64())
 			if k.bits < 64 {
